@@ -8,7 +8,7 @@ Property theorems only.  Model: `RB.Sys` with `viaRb = true` (`Model/Rebalancer.
 `Rebalancer` with scripted meters over a `RoundRobin`.  A history is any list of `RB.Op` — add /
 update / remove at arbitrary points, `rate` / `ready` (every sequence of ratings and readiness flags),
 `adv` (every timing), requests (each runs `adjustWeights`).  "Configured weight" of a key is
-`specOf hist k` (C02), "effective weight" is the balancer's `ServerWeight` (`Bal.weight`); by C01 the
+`specOf true hist k` (C02), "effective weight" is the balancer's `ServerWeight` (`Bal.weight`); by C01 the
 traffic share of server `i` is `ws[i] / Σ ws`, so shares are compared cross-multiplied.
 -/
 namespace C10
@@ -19,14 +19,14 @@ def reach (sticky : Bool) (backoff : Nat) (newReady : Bool) (hist : List Op) : S
   (Sys.init true sticky backoff newReady).applyOps hist
 
 private theorem reach_spec (st : Bool) (bo : Nat) (nr : Bool) (hist : List Op) :
-    (reach st bo nr hist).Inv ∧ (reach st bo nr hist).Refines (specOf hist) ∧ (reach st bo nr hist).viaRb = true := by
+    (reach st bo nr hist).Inv ∧ (reach st bo nr hist).Refines (specOf true hist) ∧ (reach st bo nr hist).viaRb = true := by
   obtain ⟨a, b, c⟩ := Sys.applyOps_spec hist (Sys.init_inv true st bo nr) (Sys.init_refines true st bo nr)
   exact ⟨a, b, c.viaRb⟩
 
 /-- **C10 (range)**: whatever the history, a server with positive configured weight `w` has an
     effective weight `e` with `1 ≤ e ≤ max 4096 w`. -/
 theorem C10_range (st : Bool) (bo : Nat) (nr : Bool) (hist : List Op) (k : Key) (w : Nat)
-    (hc : specOf hist k = some w) (hw : 0 < w) :
+    (hc : specOf true hist k = some w) (hw : 0 < w) :
     ∃ e, (reach st bo nr hist).bal.weight k = some e ∧ 1 ≤ e ∧ e ≤ max 4096 w := by
   obtain ⟨hi, hr, hv⟩ := reach_spec st bo nr hist
   have hc' : (reach st bo nr hist).reb.configured k = some w := by
@@ -42,7 +42,7 @@ theorem C10_range (st : Bool) (bo : Nat) (nr : Bool) (hist : List Op) (k : Key) 
 /-- **C10 (the pool stays servable)**: if some configured weight is positive, `NextServer()` selects
     a server and every request is forwarded, after every history. -/
 theorem C10_servable (st : Bool) (bo : Nat) (nr : Bool) (hist : List Op) (k : Key) (w : Nat)
-    (hc : specOf hist k = some w) (hw : 0 < w) (cookie : Option Key) (mt : Option Mut) :
+    (hc : specOf true hist k = some w) (hw : 0 < w) (cookie : Option Key) (mt : Option Mut) :
     (∃ i y, ((reach st bo nr hist).step .next).2 = .next (.sel i) (some y)) ∧
     (∃ y f, ((reach st bo nr hist).step (.serve cookie mt)).2 = .forwarded y f) := by
   obtain ⟨e, he, h1, _⟩ := C10_range st bo nr hist k w hc hw
@@ -151,15 +151,15 @@ theorem C10_outlier_means_mixed (r : Reb) (hnn : ∀ p ∈ r.servers, 0 ≤ p.ra
     is already expired (`now − 1s`), so the next request may adjust again. -/
 theorem C10_membership_restores (st : Bool) (bo : Nat) (nr : Bool) (hist : List Op) (op : Op)
     (hadm : op.isAdmin) (hok : ((reach st bo nr hist).step op).2 = .ok) (k : Key) :
-    ((reach st bo nr hist).step op).1.bal.weight k = specOf (hist ++ [op]) k ∧
+    ((reach st bo nr hist).step op).1.bal.weight k = specOf true (hist ++ [op]) k ∧
     ((reach st bo nr hist).step op).1.reb.timer = ((reach st bo nr hist).now : Int) - second := by
   obtain ⟨hi, hr, hv⟩ := reach_spec st bo nr hist
   obtain ⟨a, b, c⟩ := Sys.step_spec hi hr op
   have hv' : ((reach st bo nr hist).step op).1.viaRb = true := by rw [c.viaRb]; exact hv
-  have hspec : specOf (hist ++ [op]) = specStep (specOf hist) op := by
+  have hspec : specOf true (hist ++ [op]) = specStep true (specOf true hist) op := by
     unfold specOf; rw [List.foldl_append]; rfl
-  have hconf : ((reach st bo nr hist).step op).1.reb.configured k = specOf (hist ++ [op]) k := by
-    have := b k; unfold Sys.configured at this; rw [if_pos hv'] at this; rw [this, hspec]
+  have hconf : ((reach st bo nr hist).step op).1.reb.configured k = specOf true (hist ++ [op]) k := by
+    have := b k; unfold Sys.configured at this; rw [if_pos hv'] at this; rw [this, hspec, hv]
   rw [← hconf]
   generalize reach st bo nr hist = s at *
   have hinv := hi.reb hv
@@ -179,6 +179,14 @@ theorem C10_membership_restores (st : Bool) (bo : Nat) (nr : Bool) (hist : List 
         simp only [Sys.step, hv, if_true]
         exact ⟨i4, i5⟩
       | negSucc w => simp [Sys.step] at hok
+  | upsertFailing u w =>
+    by_cases hc : (s.viaRb && (s.reb.find u.key).isNone) = true
+    · simp [Sys.step, hc] at hok
+    · obtain ⟨_, _, _, i4, i5, _⟩ := Reb.upsert_spec hinv s.now u w
+      have e : s.step (.upsertFailing u w) = ({ s with reb := s.reb.upsert s.now u w }, .ok) := by
+        simp only [Sys.step]; rw [if_neg hc, if_pos hv]
+      rw [e]
+      exact ⟨i4, i5⟩
   | remove u =>
     cases hrm : s.reb.remove s.now u with
     | none => simp [Sys.step, hv, hrm] at hok
@@ -271,7 +279,7 @@ example : ∀ op ∈ [Op.serve none none, Op.adv 500, Op.rate (u "a").key 1, Op.
 example : (((reach false 1000 true (hist0 ++ [.serve none none])).applyOps [.adv 500, .serve none none]).now : Int)
     ≤ (reach false 1000 true (hist0 ++ [.serve none none])).reb.timer := by decide +kernel
 -- `C10_range` / `C10_membership_restores` hypotheses
-example : specOf hist0 (u "c").key = some 3 := by decide +kernel
+example : specOf true hist0 (u "c").key = some 3 := by decide +kernel
 example : ((reach false 1000 true hist0).step (.remove (u "a"))).2 = .ok := by decide +kernel
 
 end C10
